@@ -9,7 +9,7 @@ ending in framework errors (malformed / oversized body, HTML or JSON); read X.re
 Oracle: every read of X.request.{path, query_string, method, a header, a cookie} and X.response.{status code,
 headers, cookie names} inside X's handler - before and after the nested operation - equals X's own request /
 response, and every final WSGI response equals the response of the same request served by a lone application.
-E-SCHED: requests of A and B served on two threads, all schedules with <= 1 preemption (thorough: <= 2 for three of the pairs) at source-line
+E-SCHED: requests of A and B served on two threads, all schedules with <= 1 preemption (thorough: <= 2 for two of the pairs) at source-line
 granularity, same oracle.
 """
 import itertools
@@ -32,7 +32,7 @@ MANIFEST = {
                  'Request.copy, object construction inside handlers) replayed on a fresh import, plus exploration of all '
                  'two-thread schedules with bounded preemptions; oracle = handler observations and responses equal the lone run',
     'text': 'All histories up to depth 2 (quick) / 3 (thorough) over 61 operations, and up to depth 3 / 4 over the 15 error / creation operations, on applications A, B and the default '
-            'application, and all schedules with <=1 preemption (thorough: <=2 for the pairs A+B, A:chunked+B:chunked and A+A) of requests on two threads, '
+            'application, and all schedules with <=1 preemption (thorough: <=2 for the pairs A+B and A:chunked+B:chunked) of requests on two threads, '
             'are executed; each observation of app.request / app.response must show the application\'s own request. Every application registers a before_request hook for itself (the hook log must equal the served sequence); handlers re-read their body around nested requests with bodies; chunked forms and private status codes are part of the menu.',
     'note': 'Bounds: 3 applications, history depth and preemption bound as stated. Trusted: vf/sched.py, the fresh-import loader.',
 }
@@ -410,7 +410,7 @@ def shards(tier, seed):
     for i in range(len(ms)):
         for j in range(len(ms)):
             out.append(('hist', (i, j), depth if tier == 'quick' else 4, 'small'))
-    deep = {(('A', 'B'), 0), (('A', 'B'), 1), (('A:c', 'B:c'), 0), (('A:c', 'B:c'), 1), (('A', 'A'), 0)}
+    deep = {(('A', 'B'), 0), (('A:c', 'B:c'), 1)}
     for pair in (('A', 'B'), ('A', 'D'), ('B', 'D'), ('A', 'A'), ('A:c', 'B:c'), ('A:c', 'D')) + \
             ((('A:c', 'A:c'), ('D:c', 'B:c'), ('B:c', 'A')) if tier == 'thorough' else ()):
         for start in (0, 1):
@@ -428,7 +428,7 @@ def shards(tier, seed):
 
 def bounds(tier, seed):
     return {'applications': APPS, 'menu': len(menu()), 'history_depth': '2 over the full menu, 3 over the 15-operation error/creation menu' if tier == 'quick' else '3 over the full menu, 4 over the error/creation menu',
-            'thread_pairs': ['A+B', 'A+D', 'B+D', 'A+A', 'A:chunked+B:chunked', 'A:chunked+D'] + (['A:chunked+A:chunked', 'D:chunked+B:chunked', 'B:chunked+A'] if tier == 'thorough' else []), 'preemption_bound': 1 if tier == 'quick' else '2 for A+B, A:chunked+B:chunked (either thread first) and A+A; 1 for the other pairs'}
+            'thread_pairs': ['A+B', 'A+D', 'B+D', 'A+A', 'A:chunked+B:chunked', 'A:chunked+D'] + (['A:chunked+A:chunked', 'D:chunked+B:chunked', 'B:chunked+A'] if tier == 'thorough' else []), 'preemption_bound': 1 if tier == 'quick' else '2 for A+B (A first) and A:chunked+B:chunked (B first); 1 for the other pairs and orders'}
 
 
 FLOORS = {'histories': 3000, 'nested_ops': 2000, 'schedules': 1000}
